@@ -43,12 +43,11 @@ def pickPlain (it : IType) (c : Caps) : Pick :=
   | .mode => if c.mode then .mode else .notImpl
   | .median => if c.median then .median else .notImpl
   | .mean =>
-    -- `if hasattr(dist, "mean"): try: return dist.mean except NotImplementedError: pass`: a `mean` property that
-    -- raises NotImplementedError raises it already inside `hasattr` (only AttributeError is swallowed there)
+    -- `try: return dist.mean except (AttributeError, NotImplementedError): pass` (repaired: the pinned
+    -- `if hasattr(dist, "mean"):` raised the NotImplementedError of a `mean` property already inside `hasattr`)
     match c.mean with
     | .ok => .mean
-    | .notImpl => .notImpl
-    | .absent => if c.rsample then .empMeanRsample else .empMeanSample
+    | _ => if c.rsample then .empMeanRsample else .empMeanSample
   | .random => if c.rsample then .rsample else .sample
   | .deterministic => .notImpl        -- "unknown interaction_type" (a type registered as DETERMINISTIC without deterministic_sample)
 
